@@ -612,6 +612,15 @@ def oracle_part(chk, rng, n):
         inst = geom.gen_instance(rng, maxn=5, maxT=4, G=rng.choice([2, 3]))
         cf = geom.gen_config(rng, allow=('nodes', 'cuts'))
         cf.update(ne=False, W=0, avoid_goingback=False)
+        if i % 4 == 3 and inst['edges']:
+            # there-and-back traces: the best walk returns to the state before the previous one (a first-order model has
+            # no memory of it), with a slightly worse alternative nearby
+            a, b = rng.choice(inst['edges'])
+            pa, pb = inst['coord'][a], inst['coord'][b]
+            jit = lambda q: [q[0] + rng.randint(-1, 1) / 4.0, q[1] + rng.randint(-1, 1) / 4.0]
+            inst['path'] = [jit(pa), jit(pb), jit(pa)] + ([jit(pb)] if rng.random() < 0.4 else [])
+            if cf['cls'] == 'simple' and rng.random() < 0.7:
+                cf['only_edges'] = False
         if i % 2:
             cf['max_dist_init'] = None if cf['max_dist'] is None else 1.0e6      # unbounded initial radius in half of the runs
         itab, scf = geom.extract_tables(inst, cf)
